@@ -76,7 +76,29 @@ def reserve : P String := do
     pure (s!"drain {out.length}" ++ tags out ++ " ; raw " ++ (if rawS.isEmpty then "-" else rawS)
       ++ " ; receipt" ++ recS)
 
+/-- several ticks on one scheduler object (sequential, same tx id re-used, or interleaved open
+    transactions): the model says each tick is decided from its own candidates alone. -/
+def multi : P String := do
+  let radix ← kind
+  let _mode ← tok
+  let ticks ← counted (counted (do
+    let scope ← id32; let ruleId ← id32; let compact ← num; let mask ← num
+    let fp ← footprint mask
+    pure ({ scope, ruleId, compact, fp, tag := 0 } : Cand)))
+  done
+  let one (cs : List Cand) : String :=
+    match drainBy radix (tagged cs) with
+    | none => "panic"
+    | some out =>
+      let fps := out.map (·.fp)
+      let cfg := Generated.conflictCfg
+      let raw := if radix then reserveAll (radixReserve cfg) Active.empty fps
+                 else reserveAll (legacyReserve cfg) [] fps
+      let rawS := String.join (raw.map (fun b => if b then "A" else "R"))
+      s!"drain {out.length}" ++ tags out ++ " ; raw " ++ (if rawS.isEmpty then "-" else rawS)
+  pure (" | ".intercalate (ticks.map one))
+
 def handlers : List (String × (List String → String)) :=
-  [("C03.sort", runP sort), ("C03.reserve", runP reserve)]
+  [("C03.sort", runP sort), ("C03.reserve", runP reserve), ("C03.multi", runP multi)]
 
 end Driver.C03
